@@ -342,3 +342,26 @@ def rule_stale_views(ctx, rule="R1-stale"):
                        detail="the text view returned by %s (line %s) is still used at line %s, after %s (line %s) may have released or moved the buffer it points into: the last other owner can free it meanwhile" % (
                            views[vb], b.term(vb).get("line"), hit[1] if hit else "-", callee_name(b.term(ib)), b.term(ib).get("line")))
     ctx.need(rule, "crate", "functions-with-views-and-invalidators", n >= 3, "only %d functions take a text view and call a buffer-replacing operation" % n, how="%d functions examined" % n)
+
+
+def rule_no_hidden_state(ctx, rule="NOSTATE"):
+    """The result of every operation depends on its operands only - as String's does: the crate keeps
+    nothing between calls.  No thread-local, no lock / once-cell / RefCell / Cell, no `static mut`.
+    (The one shared mutable location is the reference counter in a heap buffer's header, reached
+    through a handle and touched by atomics only - P4.)  A scratch buffer or cache that survives a
+    call is state a panicking callback can leave half-written."""
+    F = ctx.F
+    bad = []
+    n = 0
+    for path, b in F.bodies.items():
+        for bb, t in b.calls():
+            nm = callee_name(t)
+            n += 1
+            if nm.startswith(("std::thread::local::", "std::thread::LocalKey", "core::cell::", "std::sync::mutex", "std::sync::Mutex", "std::sync::rwlock", "std::sync::RwLock", "std::sync::once",
+                              "std::sync::Once", "std::sync::poison", "std::sync::lazy_lock", "core::cell::once", "std::collections::", "alloc::collections::")):
+                bad.append("%s in %s (line %s)" % (nm, path, t.get("line")))
+    for c in F.j.get("statics", []) if isinstance(F.j.get("statics"), list) else []:
+        if c.get("mutable") or any(x in (c.get("ty") or "") for x in ("Cell<", "Mutex<", "RwLock<", "Atomic", "Once")):
+            bad.append("static %s: %s" % (c.get("path"), c.get("ty")))
+    ctx.ob(rule, "crate", "no-state-between-calls", not bad, how="no thread-local / cell / lock / collection call among %d call sites" % n,
+           detail="the crate keeps state between calls: %s - what an operation returns then depends on earlier calls (and on what a panicking callback left there)" % "; ".join(bad[:4]))
